@@ -141,6 +141,7 @@ func typingProblems(f string, p *dec.Package, plan map[string]*gen.PlanEntry, n 
 func c08(run *ev.Run, tier string) {
 	nmixed := ncases(60, 1000, tier)
 	run.Rule = "part 1 (exhaustive): every (entry type in 12 types) x (packager tag in '', deb, rpm, apk, ipk, archlinux) x (format in 5) cell, the entry alone next to one plain file, plus config globs that expand one entry to 1..20 files; part 2: generated mixed content lists. For each package the conffiles member (deb, ipk), %config/noreplace/missingok/ghost/doc/license/readme FILEFLAGS and ghost payload/mode (rpm) and backup lines (archlinux) are compared with the declared types. Every cell also with expand: true; ghost entries naming a missing source or one without permission bits; configuration files behind symbolically linked directories, rpm documentation entries whose source is a symbolic link; a config-typed glob over a file also listed on its own; one parsed configuration serving a format with an override block and then another format. Also: entries dated outside 1970..2106, names with edge white space, config|missingok without a source. non-trivial = the case contains a config-typed or rpm-only entry that is relevant to the built format; distinct = cell / feature set"
+	run.Rule += "; the nfpm binary with the packager guessed from the target extension; ghost entries whose file_info has no mode"
 	dir := newWorkDir("c08")
 	defer removeWorkDir(dir)
 	mkfile := func(rel string, content string) string {
